@@ -1,4 +1,5 @@
 import RimeModel.C14.Lemmas
+import RimeModel.C14.CompileLemmas
 import RimeModel.C14.Doc
 import RimeModel.C14.Scheme
 /-!
@@ -112,5 +113,205 @@ theorem edit_replace {k : Str} (h : PlainKey k) (kvs : Entries) (v : Tree) (mt :
   cases mt <;>
     simp [isAppending_equ, isMerging_equ, stripOperator_equ h, traverseCow_plain h, typeChecked_plain h, assign,
       setC_one_map h]
+
+/-- `__merge: {…}` merges into the patched node itself: it is `MergeTree` of the slot -/
+theorem edit_merge_self (kvs m : Entries) :
+    editNode (.map kvs) [] kMerge (.map m) false = mergeEntries (.map kvs) [] m := by
+  unfold editNode
+  simp [isAppending, isMerging, kAppend, kMerge, kAddOp, Str.endsWith, stripOperator, traverseCow, getC, Tree.isNull,
+    ER.fail]
+
+/-- `MergeTree` with a flat map (plain keys, values that are neither null nor maps) sets the keys one
+after the other, in key order, and keeps every other entry -/
+theorem edit_merge {m : Entries} (hm : Flat m) (kvs : Entries) :
+    editNode (.map kvs) [] kMerge (.map m) false = ER.good (.map (setAll kvs m)) [] := by
+  rw [edit_merge_self, mergeEntries_flat m hm kvs]
+
+/-- `key/+: {…}` on an entry that holds a map merges into *that entry* (its map is copied on write, the
+sibling entries of `key` stay) -/
+theorem edit_merge_entry {k : Str} (h : PlainKey k) (kvs old : Entries) (x : Str × Tree) (m : Entries)
+    (hm : Flat (x :: m)) (hx : mapGet kvs k = .map old) :
+    editNode (.map kvs) [] (k ++ kAddOp) (.map (x :: m)) false
+      = ER.good (.map (mapSet kvs k (.map (setAll old (x :: m))))) [] := by
+  have hx1 : Flat [x] := fun z hz => hm z (by simp at hz; simp [hz])
+  have hr : Flat m := fun z hz => hm z (by simp [hz])
+  unfold editNode
+  simp [isAppending_add, isMerging_add, stripOperator_add h, traverseCow_plain h, getC, readKey, h.nl, hx, Tree.isNull,
+    appendToString, appendToList, ER.fail, mergeEntries_under h m hr kvs old false hx x hx1, ER.good]
+
+/-- under `MergeTree` (an `__include` with sibling keys) a map-valued sibling merges into the included
+entry, everything else overwrites it: the flat case -/
+theorem merge_tree_flat {m : Entries} (hm : Flat m) (kvs : Entries) :
+    mergeTree (.map kvs) [] (.map m) = ER.good (.map (setAll kvs m)) [] := by
+  simp [mergeTree, mergeEntries_flat m hm kvs]
+
+/-! ## patches: literal keys in key order, patch entries in list order -/
+
+/-- A patch literal whose keys are plain map keys is the left fold of "set this key" over its entries
+in key order (the order of `std::map` iteration): later keys see the effect of earlier ones. -/
+theorem patch_literal_flat {m : Entries} (hm : PlainKeys m) (kvs : Entries) :
+    patchEntries (.map kvs) [] m = ER.good (.map (setAll kvs m)) [] := by
+  induction m generalizing kvs with
+  | nil => simp [patchEntries, setAll]
+  | cons kv rest ih =>
+    obtain ⟨k, v⟩ := kv
+    have hk := hm (k, v) (by simp)
+    have hr : PlainKeys rest := fun x hx => hm x (by simp [hx])
+    unfold patchEntries
+    simp [edit_set hk kvs v, ER.good, ih hr, setAll]
+
+/-- `PatchLiteral::Resolve` is a fold: applying the entries `a ++ b` is applying `a`, then `b` to what
+`a` left (value and copy-on-write state), for *any* keys and values. -/
+theorem patch_entries_fold (base : Tree) (head : Chain) (a b : Entries) :
+    (patchEntries base head (a ++ b)).base
+        = (patchEntries (patchEntries base head a).base (patchEntries base head a).head b).base ∧
+    (patchEntries base head (a ++ b)).head
+        = (patchEntries (patchEntries base head a).base (patchEntries base head a).head b).head := by
+  induction a generalizing base head with
+  | nil => simp [patchEntries, ER.good]
+  | cons kv rest ih =>
+    obtain ⟨k, v⟩ := kv
+    simp only [List.cons_append, patchEntries]
+    exact ih _ _
+
+/-- The `__patch` entries of a node are applied in list order: the dependencies `a ++ b` act as `a`
+followed by `b` on the slot `a` produced (a failed entry stops the node: the rest is not applied). -/
+theorem patches_fold_in_order (docs : Docs) (rec : Rec) (n : NodeId) (pc : RChain) (lits : List Tree)
+    (a b : List PDep) (s : Slot) :
+    applyPatches docs rec n pc lits (a ++ b) s
+      = applyPatches docs rec n pc lits b (applyPatches docs rec n pc lits a s) := by
+  induction a generalizing s with
+  | nil => rfl
+  | cons d ds ih =>
+    by_cases h : s.fl.ok = true
+    · cases d <;> simp [applyPatches, h, ih]
+    · have h' : s.fl.ok = false := by simpa using h
+      have hf : ∀ ds : List PDep, applyPatches docs rec n pc lits ds s = s := by
+        intro ds; cases ds <;> simp [applyPatches, h']
+      simp [hf]
+
+/-- Two literal patches with plain keys on a map slot: the second is applied to the result of the
+first, so where both set a key the later patch wins. -/
+theorem patches_two_literals (docs : Docs) (rec : Rec) (n : NodeId) (pc : RChain) {l0 l1 : Entries}
+    (h0 : PlainKeys l0) (h1 : PlainKeys l1) (kvs : Entries) :
+    (applyPatches docs rec n pc [.map l0, .map l1] [.lit 0, .lit 1] { base := .map kvs, head := [], fl := {} }).base
+      = .map (setAll (setAll kvs l0) l1) := by
+  simp [applyPatches, applyPatchLit, patch_literal_flat h0, patch_literal_flat h1, ER.good, Fl.seq, Fl.ofER]
+
+/-! ## include: copy, then the local entries merged over it -/
+
+/-- `IncludeReference::Resolve` when the reference resolves to `inc`: the slot becomes `inc` — a copy:
+values cannot alias — and, if the slot held a non-empty map before (the node's own entries, children
+already compiled), those entries are merged over it with `MergeTree`. -/
+theorem include_is_copy_then_override (docs : Docs) (rec : Rec) (chain : RChain) (b : Tree) (fl : Fl)
+    (ref : Reference) (inc : Tree) (h : (resolveRef docs rec chain ref).val = some inc) :
+    (applyInclude docs rec chain { base := b, head := [], fl := fl } ref).base =
+      match b.asMap with
+      | some (kv :: kvs) => (mergeEntries inc [] (kv :: kvs)).base
+      | _ => inc := by
+  unfold applyInclude
+  simp only [h, getC, setC]
+  cases hb : b.asMap with
+  | none => simp
+  | some l => cases l <;> simp
+
+/-- …and for flat local entries over an included map: the included entries with the local ones set -/
+theorem include_flat_override (docs : Docs) (rec : Rec) (chain : RChain) (ov : Entries) (x : Str × Tree)
+    (hov : Flat (x :: ov)) (fl : Fl) (ref : Reference) (ikvs : Entries)
+    (h : (resolveRef docs rec chain ref).val = some (.map ikvs)) :
+    (applyInclude docs rec chain { base := .map (x :: ov), head := [], fl := fl } ref).base
+      = .map (setAll ikvs (x :: ov)) := by
+  rw [include_is_copy_then_override docs rec chain _ fl ref _ h]
+  simp [Tree.asMap, mergeEntries_flat (x :: ov) hov ikvs, ER.good]
+
+/-- an optional reference to a missing target is a no-op on the slot; a non-optional one fails the node -/
+theorem include_missing (docs : Docs) (rec : Rec) (chain : RChain) (s : Slot) (ref : Reference)
+    (h : (resolveRef docs rec chain ref).val = none) :
+    (applyInclude docs rec chain s ref).base = s.base ∧
+    ((applyInclude docs rec chain s ref).fl.ok = (s.fl.ok && ref.optional)) := by
+  unfold applyInclude
+  simp only [h]
+  cases ho : ref.optional <;> simp [Fl.seq, Fl.swallow]
+
+/-- The order inside one node: children first (`compileEntries`), then — unless a child failed — the
+node's own dependencies (`applyOwn`: include, patches in order, automatic custom patch) on the slot
+that holds the compiled children. -/
+theorem node_children_then_own (docs : Docs) (rec : Rec) (chain : RChain) (n : NodeId) (kvs : Entries)
+    (hc : circular chain n = false) :
+    compileNode docs rec chain n false (.map kvs) =
+      (let mc := compileEntries rec ({ id := n } :: chain) n.doc n.path kvs {}
+       if !mc.fl.ok then { lit := .map mc.data, slot := .map mc.data, fl := mc.fl }
+       else { lit := .map mc.data,
+              slot := (applyOwn docs rec chain n (.map kvs) mc.lits (.map mc.data) mc.fl).base,
+              fl := (applyOwn docs rec chain n (.map kvs) mc.lits (.map mc.data) mc.fl).fl }) := by
+  unfold compileNode
+  simp [hc]
+
+/-! ## directive-free documents, purity -/
+
+/-- A directive-free document (no `__include` / `__patch` key anywhere; root a map; not a `*.schema`
+id, for which the builder adds the default `menu` and `import_preset` expansions by design; no
+`<name>.custom` document, or the document is itself a `.custom` one) compiles to itself, and what is
+saved is itself minus null entries.  (`__build_info` is left out of `mem` / `saved` by definition.) -/
+theorem compile_plain (docs : Docs) (fuel : Nat) (name : Str) (kvs : Entries)
+    (hdoc : docs name = some (.map kvs)) (hnd : noDirM kvs = true)
+    (hs : Str.endsWith name kDotSchema = false)
+    (hc : Str.endsWith name kDotCustom = true ∨ docs (customOf name) = none) :
+    compileDocCore docs (fuel + 1) name
+      = { loaded := true, mem := .map kvs, saved := some (Tree.map kvs).emitProj, fl := {} } :=
+  compile_plain_core docs fuel name kvs hdoc hnd hs hc
+
+/-- The compiled result of `name` is a function of the documents reachable from it through reference
+texts (`closure`): changing, adding or removing any other document does not change it. -/
+theorem compile_pure (docs docs' : Docs) (cf fuel : Nat) (name : Str)
+    (h : ∀ n ∈ closure docs cf [name] [], docs' n = docs n) :
+    compileDoc docs' cf fuel name = compileDoc docs cf fuel name :=
+  compileDoc_congr docs docs' cf fuel name h
+
+/-- Compiling never alters a document and keeps no state: compiling a list of documents is the map of
+compiling each one, so the result for `b` is the same whether or not `a` was compiled before it.  (In
+the reference this holds by construction — values cannot alias; for the C++ compiler it is what the
+aliasing part of the differential check tests.) -/
+theorem compile_independent_of_history (docs : Docs) (cf fuel : Nat) (a b : Str) :
+    (compileAll docs cf fuel [a, b]).getLast? = (compileAll docs cf fuel [b]).getLast? := by
+  simp [compileAll]
+
+/-! ## termination of chain-guarded resolution -/
+
+/-- The recursion scheme of `ResolveDependencies` — refuse a guarded node, else push it on the chain and
+resolve its dependencies — terminates on *every* dependency map over a finite universe of nodes,
+cyclic or not, provided a node on the chain is guarded: fuel exceeding the number of universe nodes
+not on the chain is never exhausted (so the recursion depth is bounded by the number of nodes). -/
+theorem resolve_chain_terminates {α : Type} [DecidableEq α] (deps : α → List α) (guard : List α → α → Bool)
+    (hguard : ∀ chain n, n ∈ chain → guard chain n = true) (u : List α)
+    (hclosed : ∀ x ∈ u, ∀ d ∈ deps x, d ∈ u) :
+    ∀ (fuel : Nat) (chain : List α) (n : α), n ∈ u → freeNodes u chain < fuel →
+      (resolveAbs deps guard fuel chain n).isSome = true := by
+  intro fuel
+  induction fuel with
+  | zero => intro chain n _ h; omega
+  | succ f ih =>
+    intro chain n hn hf
+    unfold resolveAbs
+    by_cases hg : guard chain n = true
+    · simp [hg]
+    · simp only [hg, Bool.false_eq_true, if_false]
+      have hnc : n ∉ chain := fun hm => hg (hguard chain n hm)
+      apply allOpt_isSome
+      intro d hd
+      apply ih (n :: chain) d (hclosed n hn d hd)
+      have := freeNodes_push u chain n hn hnc
+      omega
+
+/-- in particular from the empty chain: fuel `|universe| + 1` suffices -/
+theorem resolve_fuel_bound {α : Type} [DecidableEq α] (deps : α → List α) (guard : List α → α → Bool)
+    (hguard : ∀ chain n, n ∈ chain → guard chain n = true) (u : List α)
+    (hclosed : ∀ x ∈ u, ∀ d ∈ deps x, d ∈ u) (n : α) (hn : n ∈ u) :
+    (resolveAbs deps guard (u.length + 1) [] n).isSome = true := by
+  apply resolve_chain_terminates deps guard hguard u hclosed _ _ _ hn
+  have : freeNodes u [] ≤ u.length := by
+    unfold freeNodes
+    exact List.length_filter_le _ _
+  omega
 
 end C14
